@@ -83,6 +83,7 @@ type Run struct {
 	// SlowRowUs > 0: every result row written takes this long (verif hook sleep), so that a report lasts long
 	// enough to overlap with the next interval tick / the final report
 	SlowRowUs int
+	Procs     int // GOMAXPROCS of the dmap process (0 = default)
 }
 
 // Case is a history of runs against one outfile path.
@@ -148,6 +149,7 @@ func genRun(t *rapid.T, d Data, nq int, forceKill string) Run {
 		}
 		r.Kill = Kill{Kind: "hook", Point: p, K: k}
 	}
+	r.Procs = rapid.SampledFrom([]int{0, 0, 0, 1, 2}).Draw(t, "procs")
 	if rapid.IntRange(0, 2).Draw(t, "slowrows") == 0 {
 		// aim at a report duration of 0.1 .. 1.3 s
 		target := rapid.SampledFrom([]int{100, 300, 600, 900, 1300}).Draw(t, "report-ms")
@@ -221,6 +223,9 @@ func runOnce(dir, out, queryStr string, lines []string, r Run, idx int) obs {
 	cmd := exec.Command(lib.Bin("dmap"), "--noColor", "--logLevel", "error", "--query", queryStr)
 	cmd.Dir = dir
 	cmd.Env = []string{"HOME=" + dir, "PATH=/usr/bin:/bin", "USER=root", "VHOOK_TRACE=" + tracePath}
+	if r.Procs > 0 {
+		cmd.Env = append(cmd.Env, fmt.Sprintf("GOMAXPROCS=%d", r.Procs))
+	}
 	var sched []string
 	if r.Kill.Kind == "hook" {
 		sched = append(sched, fmt.Sprintf("%s=kill:%d", r.Kill.Point, r.Kill.K))
